@@ -199,7 +199,7 @@ package dynblock
 //@ ensures marks: unbox(ret, ptr(expandBody)).valueMarks == valueMarks
 
 // ---- the extended schema is built in fresh memory (unit U13d, C17) ----
-// verif:unit U13d props=C17
+// verif:unit U13d props=C17,C04
 // extendSchema must not write the caller's schema (which is shared between concurrent content
 // requests): everything it adds goes into slices it allocates itself.
 // verif:func (*expandBody).extendSchema
@@ -207,5 +207,14 @@ package dynblock
 //@ requires schema != nil
 //@ assigns nothing
 //@ ensures fresh(ret) && ret != nil
-//@ loop 1 invariant fresh(extSchema) && fresh(extSchema.Blocks)
+// (round 8, C04) the extended schema still has room for everything the caller asked for: it holds at
+// least as many attribute schemas as the caller's and at least one more block header (the elementwise
+// clause - the caller's entries are in it at the same positions - holds on entry to the loops, thanks
+// to the copy model, but its preservation under the appends in the loops did not discharge; not claimed).
+//@ ensures attrsKept: len(ret.Attributes) >= len(schema.Attributes)
+//@ ensures blocksKept: len(ret.Blocks) >= len(schema.Blocks) + 1
+//@ loop 1 invariant fresh(extSchema) && fresh(extSchema.Blocks) && extSchema.Attributes === schema.Attributes
+//@ loop 1 invariant len(extSchema.Blocks) >= len(schema.Blocks) + 1
 //@ loop 2 invariant fresh(extSchema) && fresh(newAttrs)
+//@ loop 2 invariant len(newAttrs) >= len(schema.Attributes)
+//@ loop 2 invariant len(extSchema.Blocks) >= len(schema.Blocks) + 1
